@@ -124,7 +124,28 @@ def check_sim(case) -> Result:
         res.build_error = e
         return res
     mdl = b.model
-    tr = S.Trace(b)
+    overl, outside, amb_seen = _judge(case, S.Trace(b), err, res, 'simulation')
+    if case.get('rerun') and err is None and not res.violations:
+        # reset, re-apply the initial conditions, run again with the SAME PWMControl and rule objects: the arbitration
+        # of the second epoch is judged on its own time axis
+        err2 = None
+        try:
+            S.run_op(b, {'op': 'reset', 'reinit': True})
+            for r in b.rules:
+                if hasattr(r, 'calls'):
+                    r.calls = 0
+            S.run_op(b, dict(case['history'][0], new_solver=bool(case['rerun'].get('new_solver'))))
+        except Exception as e:  # noqa
+            err2 = e
+        _judge(case, S.Trace(b), err2, res, 'simulation/rerun')
+        res.classes += ('rerun',)
+    res.nontrivial = overl or outside
+    res.classes += ('self-locking' if mdl.self_locking else 'free', 'conflict' if overl else 'no-conflict', 'out-of-range-proposal' if outside else 'in-range',
+                    'ambiguous' if amb_seen else 'predicted')
+    return res
+
+
+def _judge(case, tr, err, res, tag):
     pwm = tr.get(0, 'pwm') if 'pwm' in tr.vars[0] else []
     n_rec = len(pwm)
     times = tr.t
@@ -158,27 +179,24 @@ def check_sim(case) -> Result:
         if k < n_rec:
             exp = _clip(act[0]) if act else 1
             if not (pwm[k] == exp):
-                res.bad('C14/simulation/arbitration', f'instant {k} (t={times[k]!r}): recorded duty cycle {pwm[k]!r}, '
+                res.bad(f'C14/{tag}/arbitration', f'instant {k} (t={times[k]!r}): recorded duty cycle {pwm[k]!r}, '
                         f'proposals {props} -> expected {exp!r}')
                 break
     if n_rec and not all(-1 <= x <= 1 for x in pwm):
-        res.bad('C14/simulation/recorded-out-of-range', f'recorded duty cycles outside [-1,1]: '
+        res.bad(f'C14/{tag}/recorded-out-of-range', f'recorded duty cycles outside [-1,1]: '
                 f'{[float(x) for x in pwm if not -1 <= x <= 1][:3]}')
     if not amb_seen:
         if conflict_at is not None:
             if not isinstance(err, ValueError):
-                res.bad('C14/simulation/conflict-not-reported', f'two rules applicable at instant {conflict_at} '
+                res.bad(f'C14/{tag}/conflict-not-reported', f'two rules applicable at instant {conflict_at} '
                         f'(t={times[conflict_at]!r}) but the run ended with {err!r} after recording {n_rec} samples')
             elif n_rec != conflict_at:
-                res.bad('C14/simulation/recorded-past-conflict', f'two rules applicable at instant {conflict_at} but '
+                res.bad(f'C14/{tag}/recorded-past-conflict', f'two rules applicable at instant {conflict_at} but '
                         f'{n_rec} samples were recorded')
         elif err is not None:
-            res.bad(f'C14/simulation/raises/{type(err).__name__}', f'no conflict predicted but the run raised '
+            res.bad(f'C14/{tag}/raises/{type(err).__name__}', f'no conflict predicted but the run raised '
                     f'{type(err).__name__}: {err}')
-    res.nontrivial = overl or outside
-    res.classes += ('self-locking' if mdl.self_locking else 'free', 'conflict' if overl else 'no-conflict', 'out-of-range-proposal' if outside else 'in-range',
-                    'ambiguous' if amb_seen else 'predicted')
-    return res
+    return overl, outside, amb_seen
 
 
 _stub_vals = st.one_of(st.none(), st.none(), st.sampled_from([1, -1, 0, 1.0, -1.0, 0.0, 1e6, -1e6, 5, -3, 1.0000000000000002]),
@@ -249,6 +267,8 @@ def s_sim(draw, max_steps=40):
                           'value': G._duty(draw(st.one_of(st.floats(-1, 1), st.sampled_from([1, -1, 0]))))})
     case['control'] = rules
     case['history'] = [dict(run, control=True)]
+    if draw(st.integers(0, 3)) == 0:
+        case['rerun'] = {'new_solver': draw(st.booleans())}
     if draw(st.integers(0, 2)) == 0:
         # a preset duty cycle: with a motor control attached it must give way to the arbitration from the first instant
         case['motor']['pwm0'] = draw(st.sampled_from([0.5, -0.5, 0.3, -1, 0]))
